@@ -230,3 +230,15 @@ Proof.
     rewrite Nat.add_1_r, pow_S_nat. lia. }
   lia.
 Qed.
+
+(** the fuel of the large-divisor loop in the model (the number of limbs) is never exhausted: the loop stops because
+    fewer than 32 limbs remain, like the `while limb_count >= RADIX_ENCODING_LIMBS_LARGE` of the source *)
+Lemma large_go_fuel fixed rp : forall fuel act oi w, (length act <= fuel)%nat ->
+  (length (fst (fst (large_go fuel fixed rp act oi w))) < 32)%nat.
+Proof.
+  induction fuel as [|f IH]; intros act oi w Hl.
+  - cbn [large_go fst]. lia.
+  - cbn [large_go]. unfold RADIX_LIMBS_LARGE. destruct (Nat.leb_spec 32 (length act)) as [Hge|Hlt]; [|cbn [fst]; lia].
+    destruct (boxed_div_rem_in_place act (rp_div_large rp)) as [q remain].
+    apply IH. rewrite firstn_length. destruct (nthz q (length act + 1 - 32 - 1) =? 0); lia.
+Qed.
